@@ -2,6 +2,7 @@ package lossy
 
 import (
 	"bytes"
+	"image"
 	"sync"
 
 	"github.com/deepteams/webp/internal/verifapi"
@@ -56,4 +57,78 @@ func VerifH_C11_LossyDecoderReuse(bufs int) {
 	got := vCopyPlanes(w2, h2, y2, ys2, u2, v2, uvs2)
 	verifapi.Assert(bytes.Equal(got, want), "same samples whatever state the pooled decoder was left in")
 	verifapi.Cover(true, "reuse compared")
+}
+
+// vC11Scratch: working storage of VP8Encoder that is not state (outside the claim of the harness
+// below: whether each is fully rewritten before it is read is not examined here).
+var vC11Scratch = []string{
+	"yuvIn", "yuvOut", "yuvOut2", "yuvP",
+	"tmpCoeffs", "tmpQCoeffs", "tmpDQCoeffs", "tmpDCCoeffs", "tmpWHTDQ", "tmpWHTBuf", "tmpAllQ", "tmpACLevels",
+	"tmpRecon", "tmpUVLevels", "tmpBestDQ", "tmpBestQ",
+	"tmpAnSrc", "tmpAnPred", "tmpAnSrcU", "tmpAnSrcV", "tmpAnPredU", "tmpAnPredV",
+	// iterator and its context rows (set up by InitIterator at the start of every pass), NZ context rows
+	"mbIterator", "itTopY", "itTopU", "itTopV", "itTopModes", "itTopNZ", "topNz", "topNzDC", "statTopNz", "statTopNzDC",
+	// analysis and colour-conversion work areas
+	"analysisAlphas", "segMapTmp", "serialRowR", "serialRowG", "serialRowB", "serialRowA",
+	"serialPlanarR", "serialPlanarG", "serialPlanarB", "serialPlanarA", "serialTmpRGB",
+	// token pages and per-macroblock page marks: their residue is the subject of VerifH_C06_Partitions
+	"tokens",
+}
+
+func vC11Picture(w, h, seed int) *image.NRGBA {
+	img := image.NewNRGBA(image.Rect(0, 0, w, h))
+	s := uint32(seed)*2654435761 + 12345
+	for i := 0; i < w*h; i++ {
+		s = s*1664525 + 1013904223
+		img.Pix[4*i], img.Pix[4*i+1], img.Pix[4*i+2], img.Pix[4*i+3] = byte(s>>24), byte(s>>16), byte(s>>8)^byte(i*7), 255
+	}
+	return img
+}
+
+// VerifH_C11_LossyEncoderReuse: NewEncoder handing out a pooled VP8Encoder whose every integer/boolean
+// field and buffer element is ARBITRARY (residue of any earlier use on a picture with the same macroblock
+// dimensions, including a rate-controlled one: non-nil rateCtrl, saved planes, row-sync pointer) leaves it
+// in the same state as a freshly allocated encoder - every field except the working storage listed in
+// vC11Scratch. (Sufficient condition; a difference is reported only if the native replay then shows
+// different output bytes.)  mode: 0 default, 1 TargetSize, 2 TargetPSNR, 3 method 2 (stat loop path).
+func VerifH_C11_LossyEncoderReuse(mode int) {
+	encoderPool = sync.Pool{}
+	img := vC11Picture(20, 18, 1)
+	cfg := DefaultConfig(60)
+	switch mode {
+	case 1:
+		cfg.TargetSize = 260
+	case 2:
+		cfg.TargetPSNR = 36
+	case 3:
+		cfg.Method = 2
+	}
+	fresh := NewEncoder(img, cfg)
+
+	old := DefaultConfig(35)
+	old.TargetSize = 700
+	old.Method = 6
+	dirty := NewEncoder(vC11Picture(30, 31, 2), old)
+	verifapi.Assert(dirty != fresh && dirty.mbW == fresh.mbW && dirty.mbH == fresh.mbH, "second encoder is a distinct object of the same macroblock size")
+	dirty.rateCtrl = &passStats{}
+	dirty.parallelRS = newRowSync(dirty.mbH)
+	dirty.savedY, dirty.savedU, dirty.savedV = make([]byte, 8), make([]byte, 4), make([]byte, 4)
+	mbW, mbH, totalMB, ys, uvs := dirty.mbW, dirty.mbH, dirty.tokens.totalMB, dirty.yStride, dirty.uvStride
+	verifapi.Havoc(dirty)
+	verifapi.Havoc(dirty.rateCtrl)
+	// what every real history leaves unchanged: the macroblock dimensions the pool match is keyed on
+	// and the sizes derived from them at allocation time
+	dirty.mbW, dirty.mbH, dirty.tokens.totalMB, dirty.yStride, dirty.uvStride = mbW, mbH, totalMB, ys, uvs
+	encoderPool.Put(dirty)
+
+	reused := NewEncoder(img, cfg)
+	verifapi.Assert(reused == dirty, "the pooled encoder was reused")
+	verifapi.Cover(true, "reuse compared")
+	verifapi.Candidate(!verifapi.Symbolic() || verifapi.SameExcept(reused, fresh, vC11Scratch...), "a reused encoder starts in the same state as a fresh one")
+	if !verifapi.Symbolic() {
+		b1, e1 := fresh.EncodeFrame()
+		b2, e2 := reused.EncodeFrame()
+		verifapi.Assert(e1 == nil && e2 == nil, "both encodes succeed")
+		verifapi.Assert(bytes.Equal(b1, b2), "same bytes from a reused encoder as from a fresh one")
+	}
 }
